@@ -250,3 +250,7 @@ func vpBindVsRecreate(prop string) {
 	w.syncListers()
 	w.checkAll(prop, "scheduling another pod afterwards")
 }
+
+// BOUND: topology 1; same scenario as VerifC04_q_reserveReleaseVsRebind (API release of a deployment's / pool's reserved address overlapping Filter + Bind of the replacement pod, symbolic window 0..10), checked under C01: no two live pods hold one IP and every live bound pod owns its IP
+// ASSUME: C01: same scenario as VerifC04_q_reserveReleaseVsRebind, checked under C01
+func VerifC01_q_reserveReleaseVsRebind() { vpReserveReleaseVsRebind("C01") }
